@@ -315,6 +315,22 @@ def WEv.lossOK : WEv → Bool
 
 def lossesOK (ws : List WEv) : Bool := ws.all WEv.lossOK
 
+/-- the bytes of one direction, over all calls -/
+def readBytes : List Call → Bytes
+  | [] => []
+  | .read d _ :: cs => d ++ readBytes cs
+  | _ :: cs => readBytes cs
+def writeBytes : List Call → Bytes
+  | [] => []
+  | .write d _ :: cs => d ++ writeBytes cs
+  | _ :: cs => writeBytes cs
+
+/-- the frames of one direction among the wire events, in order -/
+def dirFrames (isReq : Bool) : List WEv → List Frame
+  | [] => []
+  | .frame r f :: ws => if r = isReq then f :: dirFrames isReq ws else dirFrames isReq ws
+  | _ :: ws => dirFrames isReq ws
+
 /-- **The property's predicate on everything that was delivered**, for well-formed traffic
 whose streams are `es` (= `expects [] ws`): every delivered trace carries the test name of
 some stream, and for every test name the delivered traces are, one for one, the traces
